@@ -5,6 +5,7 @@ import NgoVerif.Model.Globals
 import NgoVerif.Model.Options
 import NgoVerif.Model.Api
 import NgoVerif.DriverCleanup
+import NgoVerif.DriverBinding
 /-!
 # Line-protocol driver: one s-expression request per line on stdin, one s-expression answer per line on stdout.
 
@@ -51,7 +52,7 @@ def runMakeUnique (u : UniqueVars) : List Sexp → List String → Option (List 
   | _, _ => none
 
 /-- handlers contributed by the per-pass driver files; tried in order -/
-def extHandlers : List (Sexp → Option Sexp) := [handleCleanup]
+def extHandlers : List (Sexp → Option Sexp) := [handleCleanup, handleBinding]
 
 def tryExt (req : Sexp) : List (Sexp → Option Sexp) → Sexp
   | [] => unsupported "unknown op"
